@@ -35,7 +35,22 @@ func (m *Model) derivesFromField(v ssa.Value, fieldName string, depth int, seen 
 				return true
 			}
 		}
+	case *ssa.Extract:
+		return m.derivesFromField(x.Tuple, fieldName, depth+1, seen)
+	case *ssa.Call:
+		if callee := x.Common().StaticCallee(); callee != nil && m.inPkg(callee) {
+			for _, ret := range returnsOf(callee) {
+				for _, res := range ret.Results {
+					if m.derivesFromField(res, fieldName, depth+1, seen) {
+						return true
+					}
+				}
+			}
+		}
 	case *ssa.UnOp:
+		if x.Op == token.NOT {
+			return m.derivesFromField(x.X, fieldName, depth+1, seen)
+		}
 		if x.Op == token.MUL {
 			switch cell := x.X.(type) {
 			case *ssa.Alloc:
@@ -414,29 +429,26 @@ func (m *Model) ruleOPENMODE(r *Results) {
 	// (2) open function
 	fn := a.OpenFn
 	name := m.declName(fn)
-	errReturnAfter := func(b *ssa.BasicBlock, global string) bool {
-		// a load of the named error variable happens in a block reachable from b before any join with the other side
-		for idx := range reachableFrom(b, nil) {
-			for _, ins := range fn.Blocks[idx].Instrs {
-				if ld, ok := ins.(*ssa.UnOp); ok {
-					if g, ok := ld.X.(*ssa.Global); ok && g.Name() == global && fn.Blocks[idx] == b {
-						return true
-					}
+	errLoadedIn := func(b *ssa.BasicBlock, global string) bool {
+		for _, ins := range b.Instrs {
+			if ld, ok := ins.(*ssa.UnOp); ok {
+				if g, ok := ld.X.(*ssa.Global); ok && g.Name() == global {
+					return true
 				}
 			}
 		}
 		return false
 	}
 	okReopen, okCreate := false, false
-	for _, iff := range allIfs(fn) {
-		if eq, ok := m.modeTest(iff, reopen); ok {
-			if errReturnAfter(eq, "ErrNotExist") {
-				// must be on the in-memory side
+	for g := range m.reachableLocal(fn) {
+		if m.methodOwner(g) == reg && reg != nil {
+			continue
+		}
+		for _, iff := range allIfs(g) {
+			if eq, ok := m.modeTest(iff, reopen); ok && errLoadedIn(eq, "ErrNotExist") {
 				okReopen = true
 			}
-		}
-		if eq, ok := m.modeTest(iff, createNew); ok {
-			if errReturnAfter(eq, "ErrExist") {
+			if eq, ok := m.modeTest(iff, createNew); ok && errLoadedIn(eq, "ErrExist") {
 				okCreate = true
 			}
 		}
@@ -490,21 +502,12 @@ func (m *Model) ruleOPENMODE(r *Results) {
 			if isZeroConst(cd.X) {
 				other = cd.Y
 			}
-			// the version variable: a load of a cell filled by the Scan of PRAGMA user_version
+			// the version variable: a value read by the Scan of PRAGMA user_version (directly or through a helper)
 			isVers := false
-			if ld, ok := stripConv(other).(*ssa.UnOp); ok {
-				for _, sc := range m.scanCalls() {
-					if sc.Fn == fn && sc.Site != nil {
-						for _, v := range sc.Site.Variants {
-							if st := v.Stmt(); st != nil && st.Kind == sqlp.SPragma && st.PragmaName == "user_version" {
-								for _, d := range sc.Dests {
-									if d == ld.X {
-										isVers = true
-									}
-								}
-							}
-						}
-					}
+			te := m.newTermEval()
+			for _, alt := range te.term(other, iff, topFrame(fn)).alts() {
+				if alt.Kind == "scan" && strings.Contains(alt.Col, "pragma:user_version") {
+					isVers = true
 				}
 			}
 			if !isVers {
@@ -840,8 +843,16 @@ func (m *Model) ruleViewCache(r *Results, rule string) {
 func (m *Model) ruleVIEWMARK(r *Results) {
 	const rule = "R-VIEW-MARK"
 	a := &m.A
-	if a.MarkHelper == nil {
-		r.undecided(rule, "anchors", "-", "mark helper unresolved")
+	var collMarks []*SQLSite
+	for _, s := range m.markSites() {
+		for _, v := range s.Variants {
+			if st := v.Stmt(); st != nil && lower(st.Table) == "collections" {
+				collMarks = append(collMarks, s)
+			}
+		}
+	}
+	if len(collMarks) == 0 {
+		r.undecided(rule, "anchors", "-", "no statement advances collections.lastCas")
 		return
 	}
 	n := 0
@@ -860,7 +871,12 @@ func (m *Model) ruleVIEWMARK(r *Results) {
 			continue
 		}
 		n++
-		marks := reach[a.MarkHelper]
+		marks := false
+		for _, ms := range collMarks {
+			if reach[ms.Fn] {
+				marks = true
+			}
+		}
 		key := m.declName(tc.Fn) + " / writes documents without advancing the collection mark"
 		if marks {
 			key = m.declName(tc.Fn) + " / advances the collection mark"
